@@ -333,6 +333,7 @@ func c02Schemes(c *Ctx) {
 	} else {
 		c.Unresolved("C02.4", "BLS12AggregateSignature.participants", "field missing")
 	}
+	c02CheckPop(c)
 	c.Exempt("C02.5/empty", "bls12Base.Verify", "security/crypto/bls12.go",
 		"empty participant sets are not rejected by the BLS verifier itself; every certificate verifier compares Participants().Len() with QuorumSize() >= 1 first (C02.1) and single votes are checked by C09.6")
 }
@@ -745,4 +746,86 @@ func fieldsRead(fn *ssa.Function, T types.Type) map[string]bool {
 		}
 	})
 	return out
+}
+
+// c02CheckPop: the BLS proof-of-possession check (the defence against rogue-key aggregates): a replica's key is
+// accepted only after its proof verified for that key, the verdict cache is keyed by proof AND key, a cached verdict
+// is used only if it was positive, and what is cached is the verdict of popVerify.
+func c02CheckPop(c *Ctx) {
+	p := c.P
+	fn := p.Method("security/crypto", "bls12Base", "checkPop")
+	pv := p.Method("security/crypto", "bls12Base", "popVerify")
+	if fn == nil || pv == nil {
+		c.Unresolved("C02.5/pop", "bls12Base.checkPop", "anchor missing")
+		return
+	}
+	fl := NewFlow(p, fn)
+	ic := newIncorp(p, fn)
+	// accepting exits
+	var bad []string
+	exits := successExits(fl, 0)
+	for _, e := range exits {
+		facts := fl.At(e.Ret)
+		hit := trueOf(facts, func(k string) bool { return strings.Contains(k, "bls12Base.popCache[") && strings.HasSuffix(k, "#0") }) &&
+			trueOf(facts, func(k string) bool { return strings.Contains(k, "bls12Base.popCache[") && strings.HasSuffix(k, "#1") })
+		verified := (e.Via != nil && calleeIs(&e.Via.Call, pv)) || errNilOf(facts, func(k string) bool { return strings.HasPrefix(k, "(*hs/security/crypto.bls12Base).popVerify(") })
+		// `return err` where err is popVerify's result
+		if !verified {
+			if call, ok := retValue(e.Ret, 0).(*ssa.Call); ok && calleeIs(&call.Call, pv) {
+				verified = true
+			}
+		}
+		if !hit && !verified {
+			bad = append(bad, p.Pos(e.Ret.Pos()))
+		}
+	}
+	c.Check(len(bad) == 0 && len(exits) > 0, "C02.5/pop", "bls12Base.checkPop: accepted only on a positive cached verdict or a successful popVerify", p.FuncPos(fn),
+		"every accepting exit is a cache hit with a true verdict, or returns popVerify's own verdict", "accepting exit at "+join(bad)+" without a positive verdict for this proof and key (a failed or never-checked proof is accepted)")
+	// cache key incorporates proof and key; popVerify is called with the replica's own key and the decoded proof
+	okKey, okVal, okArgs := true, false, false
+	nKeys := 0
+	eachInstr(fn, func(in ssa.Instruction) {
+		switch x := in.(type) {
+		case *ssa.Lookup:
+			if strings.HasSuffix(fl.K.Key(x.X), "bls12Base.popCache") {
+				nKeys++
+				d := ic.deps(x.Index)
+				if !hasDepContaining(d, "Metadata") || !(hasDepContaining(d, "PubKey") || hasDepContaining(d, "BLS12PublicKey")) {
+					okKey = false
+				}
+			}
+		case *ssa.MapUpdate:
+			if strings.HasSuffix(fl.K.Key(x.Map), "bls12Base.popCache") {
+				nKeys++
+				d := ic.deps(x.Key)
+				if !hasDepContaining(d, "Metadata") || !(hasDepContaining(d, "PubKey") || hasDepContaining(d, "BLS12PublicKey")) {
+					okKey = false
+				}
+				vk := fl.K.Key(x.Value)
+				if strings.HasPrefix(vk, "((*hs/security/crypto.bls12Base).popVerify(") && strings.HasSuffix(vk, " == nil)") {
+					okVal = true
+				}
+			}
+		case *ssa.Call:
+			if calleeIs(&x.Call, pv) {
+				k1 := fl.K.Key(x.Call.Args[1])
+				if strings.Contains(k1, "ReplicaInfo.PubKey") {
+					okArgs = true
+				}
+			}
+		}
+	})
+	c.Check(okKey && nKeys >= 2, "C02.5/pop", "bls12Base.checkPop: verdict cache keyed by proof and public key", p.FuncPos(fn),
+		"every look-up and update of popCache uses a key that incorporates the proof bytes and the replica's public key", "the proof-of-possession verdict cache key does not bind the proof to the public key it was checked for (a proof replayed under another key hits the cache)")
+	c.Check(okVal && okArgs, "C02.5/pop", "bls12Base.checkPop: caches popVerify's verdict for the replica's own key", p.FuncPos(fn),
+		"popCache[key] = (popVerify(replica.PubKey, proof) == nil)", "cached value is popVerify's verdict: "+boolStr(okVal)+", popVerify called with the replica's key: "+boolStr(okArgs))
+}
+
+func hasDepContaining(d depSet, sub string) bool {
+	for k := range d {
+		if strings.Contains(k, sub) {
+			return true
+		}
+	}
+	return false
 }
